@@ -20,7 +20,7 @@
 EXTENDS Integers, Sequences, FiniteSets, TLC
 
 CONSTANTS Instances,   \* set of instance records (see below); one is chosen in the initial state
-          MaxFail,     \* model bound: total number of failing placements in a behaviour
+          MaxFail,     \* model bound: total number of failing placements in a behaviour (negative: unbounded)
           Dev          \* record of deviation flags (all FALSE = the design as intended)
 
 VARIABLE inst          \* the instance being built (never changes)
@@ -78,8 +78,11 @@ PlaceRootOk == /\ pc = "begun" /\ NeedRoot
                /\ pos' = SetPos(mol, {Root}, "built")
                /\ success' = TRUE /\ pc' = "walk"
                /\ UNCHANGED <<inst, placed, step, count, attempt, fails, mol>>
-PlaceRootFail == /\ pc = "begun" /\ NeedRoot /\ fails < MaxFail
-                 /\ fails' = fails + 1 /\ success' = FALSE /\ pc' = "ended"
+\* MaxFail < 0: no bound on the number of failures (the state space is finite without it: `fails` is the only counter that grows)
+CanFail == MaxFail < 0 \/ fails < MaxFail
+Bump == IF MaxFail < 0 THEN fails ELSE fails + 1
+PlaceRootFail == /\ pc = "begun" /\ NeedRoot /\ CanFail
+                 /\ fails' = Bump /\ success' = FALSE /\ pc' = "ended"
                  /\ UNCHANGED <<inst, pos, placed, step, count, attempt, mol>>
 CanWalk == pc = "walk" \/ (pc = "begun" /\ ~NeedRoot)
 
@@ -93,8 +96,8 @@ PlaceOk == /\ CanWalk /\ step <= Len(Path) /\ Build(mol, Path[step][2])
            /\ success' = TRUE /\ count' = 1 /\ step' = step + 1 /\ pc' = "walk"
            /\ UNCHANGED <<inst, attempt, fails, mol>>
 
-PlaceFail == /\ CanWalk /\ step <= Len(Path) /\ Build(mol, Path[step][2]) /\ fails < MaxFail
-             /\ fails' = fails + 1
+PlaceFail == /\ CanWalk /\ step <= Len(Path) /\ Build(mol, Path[step][2]) /\ CanFail
+             /\ fails' = Bump
              /\ placed' = Append(placed, <<step, Path[step][2]>>)
              /\ success' = FALSE /\ pc' = "failed"
              /\ UNCHANGED <<inst, pos, step, count, attempt, mol>>
